@@ -57,6 +57,21 @@ Proof.
 Qed.
 Print Assumptions C02_no_empty_frame.
 
+(* Reflection: a frame the stream itself sealed is rejected when handed back to it, provided
+   the base IVs of the two directions differ beyond the counter word (random 96 bits), or -
+   for the first frame - provided its send and receive handshake digests differ. *)
+Theorem C02_reflection_rejected :
+  forall B k c a p f' ivo,
+    enc_active B = true -> key B = Some k ->
+    f_body f' = Ct ivo (seal k (nonce_of (enc_iv B) c) a p) ->
+    (4 <= length (enc_iv B))%nat -> (4 <= length (dec_iv B))%nat ->
+    ((dec_ctr B <> 0 /\ skipn 4 (dec_iv B) <> skipn 4 (enc_iv B)) \/
+     (dec_ctr B = 0 /\ fin_recv_aad B = false /\
+      forall h, a <> AadFirst (dg_value (recv_dg B)) (dg_value (send_dg B)) h)) ->
+    exists e, snd (recv_frame_we B f') = SErr e.
+Proof. exact reflection_rejected. Qed.
+Print Assumptions C02_reflection_rejected.
+
 (* non-vacuity: two freshly keyed ends satisfy every hypothesis *)
 Example C02_hypotheses_satisfiable :
   exists A B k, duplex A B /\ key A = Some k /\ encrypted A = true /\ wf_send A.
